@@ -372,6 +372,7 @@ NOSAN uint64_t __tsan_atomic64_load(const volatile uint64_t *a, int mo) { (void)
 NOSAN void __tsan_atomic64_store(volatile uint64_t *a, uint64_t v, int mo) { (void)mo; *a = v; }
 
 // ---------------------------------------------------------------- OpenMP ABI
+static void sync_reset(int T);
 NOSAN static void thread_main(int tid) {
     uint64_t before = S.events;
     S.fn(S.data);
@@ -386,7 +387,6 @@ NOSAN int omp_get_thread_num(void) { return (S.in_region && S.nest[S.cur] == 0) 
 NOSAN int omp_get_num_threads(void) { return (S.in_region && S.nest[S.cur] == 0) ? S.nthreads : 1; }
 NOSAN int omp_get_max_threads(void) { return S.team; }
 NOSAN int omp_in_parallel(void) { return S.in_region; }
-NOSAN void GOMP_barrier(void) {}
 
 NOSAN void GOMP_parallel(void (*fn)(void *), void *data, unsigned num_threads, unsigned flags) {
     (void)flags;
@@ -425,6 +425,7 @@ NOSAN void GOMP_parallel(void (*fn)(void *), void *data, unsigned num_threads, u
             for (int j = i; j > 0 && S.change[j] < S.change[j - 1]; j--) { uint64_t t = S.change[j]; S.change[j] = S.change[j - 1]; S.change[j - 1] = t; }
         S.ichange = 0;
     }
+    sync_reset(T);
     S.in_region = 1;
     S.cur = -1;
     int first = pick_after_completion();
@@ -433,6 +434,118 @@ NOSAN void GOMP_parallel(void (*fn)(void *), void *data, unsigned num_threads, u
     for (int i = 0; i < T; i++) if (S.thread_events[i] < 40) S.empty_chunks++;  // heuristically: loop bounds only
     S.in_region = 0; S.nthreads = 1; S.cur = 0;
 }
+
+// ---------------------------------------------------------------- further libgomp entry points a future change may pull in
+// (schedule(dynamic|guided|runtime), critical, atomic fallback, barrier, single).  All of them are yield points; with
+// coroutines on one OS thread no real locking is needed, only "wait by yielding".
+NOSAN static void force_switch(void) {
+    if (!S.in_region || S.nthreads <= 1) return;
+    S.events++;
+    if (S.events > S.max_events && !S.hang) {
+        S.hang = 1;
+        report("HANG waiting in a synchronisation construct\n");
+        _exit(98);
+    }
+    int nxt = -1;
+    if (S.policy == POL_REPLAY) {
+        while (S.ireplay < S.nreplay && S.replay[S.ireplay].ev < S.events) S.ireplay++;
+        if (S.ireplay < S.nreplay && S.replay[S.ireplay].ev == S.events) { nxt = S.replay[S.ireplay].thr; S.ireplay++; }
+        if (nxt < 0 || nxt >= S.nthreads || S.done[nxt] || nxt == S.cur) nxt = -1;
+    }
+    if (nxt < 0) {  // deterministic round robin over the other live threads
+        for (int k = 1; k < S.nthreads; k++) { int t = (S.cur + k) % S.nthreads; if (!S.done[t]) { nxt = t; break; } }
+    }
+    if (nxt >= 0) do_switch(nxt);
+}
+
+static struct { long next, end, incr, chunk; int guided; int active; int arrived; } WS;
+NOSAN static void ws_init(long start, long end, long incr, long chunk, int guided) {
+    WS.next = start; WS.end = end; WS.incr = incr ? incr : 1; WS.chunk = chunk > 0 ? chunk : 1; WS.guided = guided; WS.active = 1;
+}
+NOSAN static int ws_next(long *istart, long *iend) {
+    maybe_switch(0);
+    long remaining = WS.incr > 0 ? (WS.end - WS.next + WS.incr - 1) / WS.incr : (WS.next - WS.end - WS.incr - 1) / (-WS.incr);
+    if (remaining <= 0) return 0;
+    long n = WS.chunk;
+    if (WS.guided) { long g = remaining / (S.nthreads > 0 ? S.nthreads : 1); if (g > n) n = g; }
+    if (n > remaining) n = remaining;
+    *istart = WS.next; *iend = WS.next + n * WS.incr; WS.next = *iend;
+    return 1;
+}
+#define PARLOOP(name, guided)                                                                                          \
+    NOSAN void name(void (*fn)(void *), void *data, unsigned nt, long start, long end, long incr, long chunk, unsigned flags) { \
+        ws_init(start, end, incr, chunk, guided);                                                                      \
+        GOMP_parallel(fn, data, nt, flags);                                                                            \
+    }
+PARLOOP(GOMP_parallel_loop_dynamic, 0)
+PARLOOP(GOMP_parallel_loop_nonmonotonic_dynamic, 0)
+PARLOOP(GOMP_parallel_loop_guided, 1)
+PARLOOP(GOMP_parallel_loop_nonmonotonic_guided, 1)
+PARLOOP(GOMP_parallel_loop_runtime, 0)
+PARLOOP(GOMP_parallel_loop_nonmonotonic_runtime, 0)
+PARLOOP(GOMP_parallel_loop_maybe_nonmonotonic_runtime, 0)
+#define LOOPNEXT(name) NOSAN int name(long *istart, long *iend) { return ws_next(istart, iend); }
+LOOPNEXT(GOMP_loop_dynamic_next)
+LOOPNEXT(GOMP_loop_nonmonotonic_dynamic_next)
+LOOPNEXT(GOMP_loop_guided_next)
+LOOPNEXT(GOMP_loop_nonmonotonic_guided_next)
+LOOPNEXT(GOMP_loop_runtime_next)
+LOOPNEXT(GOMP_loop_nonmonotonic_runtime_next)
+LOOPNEXT(GOMP_loop_maybe_nonmonotonic_runtime_next)
+#define LOOPSTART(name, guided)                                                                 \
+    NOSAN int name(long start, long end, long incr, long chunk, long *istart, long *iend) {     \
+        if (!WS.active || WS.arrived == 0) ws_init(start, end, incr, chunk, guided);            \
+        WS.arrived++;                                                                           \
+        return ws_next(istart, iend);                                                           \
+    }
+LOOPSTART(GOMP_loop_dynamic_start, 0)
+LOOPSTART(GOMP_loop_nonmonotonic_dynamic_start, 0)
+LOOPSTART(GOMP_loop_guided_start, 1)
+LOOPSTART(GOMP_loop_nonmonotonic_guided_start, 1)
+static int bar_count, bar_gen;
+NOSAN static void sim_barrier(void) {
+    if (!S.in_region || S.nthreads <= 1 || S.nest[S.cur]) return;
+    int gen = bar_gen;
+    if (++bar_count >= n_live()) { bar_count = 0; bar_gen++; WS.arrived = 0; return; }
+    while (gen == bar_gen) force_switch();
+}
+NOSAN void GOMP_barrier(void) { sim_barrier(); }
+NOSAN void GOMP_loop_end(void) { sim_barrier(); }
+NOSAN void GOMP_loop_end_nowait(void) {}
+static int crit_locked;
+NOSAN void GOMP_critical_start(void) { while (crit_locked) force_switch(); crit_locked = 1; }
+NOSAN void GOMP_critical_end(void) { crit_locked = 0; maybe_switch(0); }
+NOSAN void GOMP_critical_name_start(void **p) { (void)p; GOMP_critical_start(); }
+NOSAN void GOMP_critical_name_end(void **p) { (void)p; GOMP_critical_end(); }
+NOSAN void GOMP_atomic_start(void) { GOMP_critical_start(); }
+NOSAN void GOMP_atomic_end(void) { GOMP_critical_end(); }
+static int single_gen[MAXT], single_done;
+NOSAN int GOMP_single_start(void) {
+    int me = S.in_region ? S.cur : 0;
+    int g = single_gen[me]++;
+    if (g >= single_done) { single_done = g + 1; return 1; }
+    return 0;
+}
+NOSAN static void sync_reset(int T) {
+    bar_count = 0; crit_locked = 0; WS.arrived = 0; single_done = 0;
+    for (int i = 0; i < T && i < MAXT; i++) single_gen[i] = 0;
+}
+// lock-free atomics gcc may emit for `#pragma omp atomic` / reductions under -fsanitize=thread
+NOSAN int __tsan_atomic64_compare_exchange_strong(volatile uint64_t *a, uint64_t *c, uint64_t v, int mo, int fmo) {
+    (void)mo; (void)fmo; if (*a == *c) { *a = v; return 1; } *c = *a; return 0;
+}
+NOSAN int __tsan_atomic64_compare_exchange_weak(volatile uint64_t *a, uint64_t *c, uint64_t v, int mo, int fmo) {
+    return __tsan_atomic64_compare_exchange_strong(a, c, v, mo, fmo);
+}
+NOSAN uint64_t __tsan_atomic64_compare_exchange_val(volatile uint64_t *a, uint64_t c, uint64_t v, int mo, int fmo) {
+    (void)mo; (void)fmo; uint64_t o = *a; if (o == c) *a = v; return o;
+}
+NOSAN int __tsan_atomic32_compare_exchange_strong(volatile uint32_t *a, uint32_t *c, uint32_t v, int mo, int fmo) {
+    (void)mo; (void)fmo; if (*a == *c) { *a = v; return 1; } *c = *a; return 0;
+}
+NOSAN uint64_t __tsan_atomic64_fetch_add(volatile uint64_t *a, uint64_t v, int mo) { (void)mo; uint64_t o = *a; *a = o + v; return o; }
+NOSAN uint32_t __tsan_atomic32_fetch_add(volatile uint32_t *a, uint32_t v, int mo) { (void)mo; uint32_t o = *a; *a = o + v; return o; }
+NOSAN uint64_t __tsan_atomic64_exchange(volatile uint64_t *a, uint64_t v, int mo) { (void)mo; uint64_t o = *a; *a = v; return o; }
 
 // ---------------------------------------------------------------- allocator wrappers (kernels are compiled with -Dmalloc=sim_malloc -Dfree=sim_free)
 NOSAN void *sim_malloc(size_t n) {
